@@ -329,7 +329,7 @@ def errclass(e):
 
 def make_writer(cfg, chdir, uuid="verif-uuid"):
     import digital_rf
-    return digital_rf.DigitalRFWriter(chdir, cfg.realdtype, cfg.sc, cfg.fc, cfg.start, cfg.n, cfg.d, uuid,
+    return digital_rf.DigitalRFWriter(common.path_form(chdir), cfg.realdtype, cfg.sc, cfg.fc, cfg.start, cfg.n, cfg.d, uuid,
                                       cfg.comp, cfg.cksum, cfg.is_complex, cfg.nsub, cfg.cont, False)
 
 
@@ -395,13 +395,18 @@ def _input_form(cfg, arr, which):
     return arr
 
 
-def run_impl(cfg, ops, chdir, hook=None):
-    """execute ops on a real DigitalRFWriter; returns per-op reports [cls, ret, next, written, gap]"""
+def impl_stepper(cfg, ops, chdir, hook=None):
+    """generator: executes one op on a real DigitalRFWriter per step (the writer is created at the first
+    step); its return value (StopIteration.value) is (per-op reports [cls, ret, next, written, gap], writer).
+    Several steppers may be advanced in turns: several writers alive in one process must not influence
+    each other"""
     os.makedirs(chdir, exist_ok=True)
-    common.set_current({"api": "python", "cfg": cfg.as_dict(), "ops": [list(o) for o in ops]})
+    cur = {"api": "python", "cfg": cfg.as_dict(), "ops": [list(o) for o in ops]}
+    common.set_current(cur)
     w = make_writer(cfg, chdir)
     reports = []
     for i, op in enumerate(ops):
+        common.set_current(cur)
         cls, ret = 0, 0
         before = hook("before", i, op, w) if hook else None
         try:
@@ -425,7 +430,34 @@ def run_impl(cfg, ops, chdir, hook=None):
                         w.get_total_samples_written(), w.get_total_gap_samples()])
         if hook:
             hook("after", i, op, w, before, reports[-1])
+        yield None
     return reports, w
+
+
+def run_impl(cfg, ops, chdir, hook=None):
+    """execute ops on a real DigitalRFWriter; returns per-op reports [cls, ret, next, written, gap]"""
+    g = impl_stepper(cfg, ops, chdir, hook)
+    while True:
+        try:
+            next(g)
+        except StopIteration as e:
+            return e.value
+
+
+def run_impl_in_turns(items, rng):
+    """items: list of (cfg, ops, chdir); the histories are executed in ONE process with all their writers
+    alive, one op of a randomly chosen history at a time; returns [(reports, writer)] in the order given"""
+    gens = [impl_stepper(cfg, ops, chdir) for cfg, ops, chdir in items]
+    out = [None] * len(gens)
+    live = list(range(len(gens)))
+    while live:
+        k = rng.choice(live)
+        try:
+            next(gens[k])
+        except StopIteration as e:
+            out[k] = e.value
+            live.remove(k)
+    return out
 
 
 FILE_RE = re.compile(r"^(tmp\.)?rf@(\d+)\.(\d{3})\.h5$")
@@ -567,9 +599,26 @@ def run_histories(res, nhist, oracle, invalid_rate=0.0, blocks=True, modes=None,
         hs.append((cfg, ops))
     model_out = common.run_model("writer", [encode_case(cfg, ops, gaprule) for cfg, ops in hs])
     ndis = 0
-    for i, ((cfg, ops), mo) in enumerate(zip(hs, model_out)):
+    # the histories are executed two or three at a time, their writers alive together and written to in
+    # turns (process-wide state in the library must not leak from one writer into another)
+    import random as _random
+    turn_rng = _random.Random(1000003 * getattr(res, "seed", 0) + nhist)
+    executed = {}
+
+    def in_turns():
+        i0 = 0
+        while i0 < len(hs):
+            grp = list(range(i0, min(len(hs), i0 + turn_rng.choice([1, 2, 2, 3]))))
+            i0 = grp[-1] + 1
+            outs = run_impl_in_turns([(hs[i][0], hs[i][1], os.path.join(work, "h%d" % i, "ch")) for i in grp], turn_rng)
+            for i, o in zip(grp, outs):
+                executed[i] = o
+            res.count("histories-executed-in-turns:%d" % len(grp))
+            for i in grp:
+                yield i, (hs[i], model_out[i])
+    for i, ((cfg, ops), mo) in in_turns():
         chdir = os.path.join(work, "h%d" % i, "ch")
-        reports, w = run_impl(cfg, ops, chdir)
+        reports, w = executed.pop(i)
         try:
             w.close()
         except Exception:  # noqa
